@@ -134,29 +134,27 @@ def Tape.show (t : Tape) : String :=
 /-! ### compare_take / HeadTape / aligns_with -/
 
 /-- `Span::compare_take`, exact port of the Rust loop: a block that is not fully consumed is
-    *kept with its full count* for the next round.  Fuel = `take` (every round consumes ≥ 1). -/
-def Span.compareTakeRs (s p : Span) (take : Nat) : Bool :=
-  match take with
-  | 0 => true
-  | take' + 1 =>
-    match s, p with
-    | [], [] => true
-    | [], _ :: _ => false
-    | _ :: _, [] => false
-    | sb :: ss, pb :: ps =>
-      if sb.color != pb.color then false
-      else if sb.count == 0 || pb.count == 0 then false
-      else
-        let m := min (take' + 1) (min sb.count pb.count)
-        let s' := if sb.count == m then ss else s
-        let p' := if pb.count == m then ps else p
-        Span.compareTakeRs s' p' (take' + 1 - m)
-termination_by take
-decreasing_by
-  simp_wf
-  have h1 : sb.count ≠ 0 := by intro h; simp_all
-  have h2 : pb.count ≠ 0 := by intro h; simp_all
-  omega
+    *kept with its full count* for the next round.  `fuel` is structural fuel: every round
+    consumes at least one cell of `take`, so `fuel = take` never runs out first. -/
+def Span.compareTakeGo : Nat → Span → Span → Nat → Bool
+  | 0, _, _, _ => true
+  | fuel + 1, s, p, take =>
+    if take == 0 then true
+    else
+      match s, p with
+      | [], [] => true
+      | [], _ :: _ => false
+      | _ :: _, [] => false
+      | sb :: ss, pb :: ps =>
+        if sb.color != pb.color then false
+        else if sb.count == 0 || pb.count == 0 then false
+        else
+          let m := min take (min sb.count pb.count)
+          let s' := if sb.count == m then ss else s
+          let p' := if pb.count == m then ps else p
+          Span.compareTakeGo fuel s' p' (take - m)
+
+def Span.compareTakeRs (s p : Span) (take : Nat) : Bool := Span.compareTakeGo take s p take
 
 structure HeadTape where
   head : Int
